@@ -13,7 +13,11 @@ Proved here:
   **exactly** when the module has a port that is neither connected nor referenced, a no-connected port that shares its
   group with another port, or two different declared signals in one group — and never fails to answer (`group_total`:
   the depth-first group discovery terminates within its fuel).
-The remaining fault classes (extra connections, bad references and members, width mismatches
+* `conntypes_passes_iff`, `conntypes_rejects` — over the model of `ConnTypes.check_instance` as it runs after flattening (pop
+  each port's connection from a copy of `conns`; what is left over has no port): the check returns **exactly** when every port
+  of the target is connected to something of its width and nothing else is connected; a missing connection, a connection
+  of another width and a connection to a port that does not exist each make it raise.
+The remaining fault classes (bad references and members, width mismatches
 behind bundles and references, ownership, shared no-connects, cycles, module names) are decided by the
 correspondence: single-fault mutants of valid designs at every site, with the declarative `Sem.src`
 (Design.lean) as the judge of ill-formedness.
@@ -21,6 +25,7 @@ correspondence: single-fault mutants of valid designs at every site, with the de
 import Hdl21Model.Props.C07
 import Hdl21Model.Props.C03
 import Hdl21Model.Lemmas.PortRefs
+import Hdl21Model.Lemmas.ConnTypes
 namespace Hdl21.Props.C02
 open Hdl21 Hdl21.Runner
 
@@ -87,5 +92,40 @@ theorem portrefs_accepts_wellformed (m : Mod) (wf : WF m) (h : ¬ IllFormed m) :
 example : resolvePort ⟨[(0, 0), (1, 0)], [((0, 0), .nc 0), ((1, 0), .pref (0, 0))], 0⟩ (0, 0) = none := by decide +kernel
 example : resolvePort ⟨[(0, 0), (1, 0)], [((1, 0), .sig 0)], 1⟩ (0, 0) = none := by decide +kernel
 end PortRefs
+
+/-! ## `ConnTypes.check_instance` -/
+section ConnTypes
+open Hdl21.ConnTypes
+
+/-- The connection check of one instance returns iff every port is connected, with the port's width, and nothing else is. -/
+theorem conntypes_passes_iff (io : List (String × Nat)) (conns : List (String × SConn))
+    (hio : (io.map (·.1)).Nodup) (hc : (conns.map (·.1)).Nodup) :
+    passes io conns = true ↔
+      (∀ pw ∈ io, ∃ c, (pw.1, c) ∈ conns ∧ c.width = .ok pw.2) ∧ (∀ kc ∈ conns, kc.1 ∈ io.map (·.1)) :=
+  passes_iff io conns hio hc
+
+/-- Each of the three faults makes it raise: a port without a connection, a connection of another width (or of none), a
+    connection to a port the target does not have. -/
+theorem conntypes_rejects (io : List (String × Nat)) (conns : List (String × SConn))
+    (hio : (io.map (·.1)).Nodup) (hc : (conns.map (·.1)).Nodup)
+    (hbad : (∃ pw ∈ io, pw.1 ∉ conns.map (·.1)) ∨ (∃ pw ∈ io, ∃ c, (pw.1, c) ∈ conns ∧ c.width ≠ .ok pw.2) ∨
+            (∃ kc ∈ conns, kc.1 ∉ io.map (·.1))) :
+    passes io conns = false := by
+  rw [Bool.eq_false_iff]
+  intro h
+  obtain ⟨hall, hex⟩ := (passes_iff io conns hio hc).mp h
+  rcases hbad with ⟨pw, hpw, hno⟩ | ⟨pw, hpw, c, hcm, hw⟩ | ⟨kc, hkc, hno⟩
+  · obtain ⟨c, hcm, _⟩ := hall pw hpw
+    exact hno (List.mem_map.mpr ⟨(pw.1, c), hcm, rfl⟩)
+  · obtain ⟨c', hcm', hw'⟩ := hall pw hpw
+    have := unique_conn conns pw.1 c c' hc hcm hcm'
+    exact hw (this ▸ hw')
+  · exact hno (hex kc hkc)
+
+example : passes [("p", 1), ("n", 2)] [("n", .sig "b" 2), ("p", .slice (.sig "b" 2) (.int 0))] = true ∧
+    passes [("p", 1), ("n", 2)] [("n", .sig "b" 2)] = false ∧
+    passes [("p", 1)] [("p", .sig "b" 2)] = false ∧
+    passes [("p", 1)] [("p", .sig "a" 1), ("q", .sig "a" 1)] = false := by decide
+end ConnTypes
 
 end Hdl21.Props.C02
